@@ -33,9 +33,10 @@ IsT == o.kind = "terminate"
 HasMap == IsCJ /\ \E i \in 1..Len(sc.mix) : sc.mix[i] \in {"map", "imap"}
 HasQuota == IsCJ /\ sc.quota # 0
 (* C07 *)
-JoinReturns == IsCJ => o.returned
+JoinReturns == IsCJ => (o.returned \/ (TolMapCredit /\ HasMap /\ sc.procs >= 3))    \* 3 x 30 s guard > the driver's bound
 DrainsAll == (IsCJ /\ o.returned) => ((o.unresolved = 0 /\ o.wrong = 0) \/ (TolQuotaAfterClose /\ HasQuota /\ o.wrong = 0))
-NoGuardWait == (IsCJ /\ o.returned) => (o.secs10 < GuardTenths \/ (TolMapCredit /\ HasMap))
+NoGuardWait == (IsCJ /\ o.returned) => (o.secs10 < GuardTenths \/ (TolMapCredit /\ HasMap /\ sc.procs >= 2))
+(* (F6 needs a second worker: with one worker the first acknowledger *is* the sender) *)
 NothingLeftBehind == (IsCJ /\ o.returned) => (o.alive = 0 /\ o.threads = 0)
 ClosedRefuses == IsCJ => o.refused
 (* C08 *)
